@@ -15,6 +15,9 @@ CLAIMED = {
     "C19": ("exploration", "contracts on the real functions decided by bounded symbolic execution (pyvc with a trusted mini-numpy model for arrays of concrete shape) and z3",
             "Bounded stand-in, not a proof: pareto_efficient / nondominated_sort / NonDominatedPriority against the dominance and Pareto-layer specification for <= 4 points in <= 3 dimensions (all coordinates symbolic, ties included); _Bracket.on_result and MOASHA.on_trial_result against the rank-fraction rule for <= 3 recorded trials per rung; counter-models replayed natively.",
             "Bounded shapes; A-REAL; mini-numpy array model trusted; np.linalg.norm abstracted by the squared norm; bracket sampling in on_trial_add (global RNG) not covered.", "5/C19"),
+    "C10": ("exploration", "contracts on the real classes: unbounded VCs (pyvc/z3) for the simulated clock; bounded symbolic execution for the event heap (representation invariant, verbatim heapq port), the real SimulatorBackend driven by a harness, and the tabular lookup (mini-numpy)",
+            "SimulatedTimeKeeper proved for all values (time never backwards, waiting charged once). Bounded stand-in for the rest: SimulatorState push/next_until/remove_events keep the binary-heap invariant and return events in (time, counter) order for heaps of <= 5 entries; the real SimulatorBackend delivers exactly the scripted table rows with time stamp start + delay_start + elapsed + delay_on_trial_result, in order, exactly once, nothing after stop/pause, for all delays / elapsed times / sleep times (2 trials, <= 3 polls); BlackboxTabular index lookup returns the block of the requested seed.",
+            "A-REAL; time.time monotone; bounded scenario sizes; the tabular back end's pandas look-up, elapsed-time repair and per-trial seed bookkeeping are not covered; pyvc encoding, heapq port and mini-numpy trusted.", "5/C10"),
     "C04": ("proof", "contract-based deductive verification: VCs generated from the real AST (pyvc) with loop invariants and modular callee contracts, discharged by z3/cvc5; bounded-shape stand-in for the cost-aware variant and for witnesses",
             "Unbounded verification conditions (rung contents of any length, 0..3 rungs) for PromotionRungSystem (find/mark/schedule/add/report/remove) and PASHA's resource cap in on_task_schedule, from /repo's source on every run; cost-aware eligibility bounded (<=4 entries).",
             "A-REAL; SortedList contract trusted; number of rungs concrete in proof units; cost values non-negative; PASHA ranking/epsilon logic and DyHPO not covered; pyvc encoding and SMT solvers trusted.", "5/C04"),
